@@ -325,6 +325,26 @@ def faults_base(model, light, want, base):
                 yield ('no-tag-named-other', 'union', '%s.%s' % (ns_name, d.name),
                        _specs(mm.replace_def(model, ns_name, fi, di, d._replace(tags=d.tags + (mktag('other'),)))))
 
+    # ---- alias cycles -----------------------------------------------------------------------
+    # an alias that reaches itself through aliases, nullables, list items or map values has no definition to start from
+    if want('aliases', 'wrappers'):
+        wrappers = [('direct', lambda r: r), ('nullable', lambda r: N(r)), ('list', lambda r: L(r, None, None)), ('map', lambda r: M(r)),
+                    ('list-nullable', lambda r: L(N(r), None, None)), ('map-list', lambda r: M(L(r, None, None)))]
+        for ns_name, fi, di, d in mm.all_defs(model):
+            if not isinstance(d, Alias) or d.anns:
+                continue
+            for wname, w in wrappers:
+                yield ('alias-acyclic', 'alias-self:' + wname, '%s.%s' % (ns_name, d.name),
+                       _specs(mm.replace_def(model, ns_name, fi, di, d._replace(type=w(R(None, d.name))))))
+            # a cycle of length two: an alias of the same namespace that (directly) refers to this one is made its target
+            for n2, fi2, di2, a2 in mm.all_defs(model):
+                if n2 != ns_name or not isinstance(a2, Alias) or a2.name == d.name:
+                    continue
+                if any(r.ns in (None, ns_name) and r.name == d.name for r in mm.type_refs(a2.type)):
+                    for wname, w in wrappers:
+                        yield ('alias-acyclic', 'alias-cycle:' + wname, '%s.%s<->%s' % (ns_name, d.name, a2.name),
+                               _specs(mm.replace_def(model, ns_name, fi, di, d._replace(type=w(R(None, a2.name))))))
+
     # ---- inheritance ------------------------------------------------------------------------
     if want('inherit', 'uinherit'):
         for ns_name, fi, di, d in mm.all_defs(model):
